@@ -175,3 +175,238 @@ contract("C13", name="regular_keyword_shifts", targets=["irispie.dates:Period.sh
          "irispie.dates:RegularPeriodMixin.create_eopy", "irispie.dates:RegularPeriodMixin.create_tty"], instances=_REG)(regular_keyword_shifts)
 contract("C13", name="daily_keyword_shifts", targets=["irispie.dates:DailyPeriod.create_soy", "irispie.dates:DailyPeriod.create_eopy",
          "irispie.dates:DailyPeriod.create_tty"], instances=[()])(daily_keyword_shifts)
+
+
+# ------------------------------------------------------------------------------ series level: alignment of the change functions
+from contracts.c10_series import mk_series, V, state, RI, generic_cell
+import numpy as np
+
+CHANGE_CELL = {
+    "diff": lambda K, a, b: a - b,
+    "roc": lambda K, a, b: a / b,
+    "pct": lambda K, a, b: 100 * (a / b - 1),
+    "diff_log": lambda K, a, b: K.log(a) - K.log(b),
+}
+
+
+@contract("C13", targets=[P + "Inlay.temporal_change", P + "Inlay.diff", P + "Inlay.roc", P + "Inlay.pct", P + "Inlay.diff_log", P + "_catch_invalid_shift",
+                          "irispie.series.main:Series.shift", "irispie.series.main:Series._binop"],
+          instances=[(n, 1) for n in CHANGE_CELL] + [("diff", 2)], opts={"max_paths": 6000})
+def change_is_period_by_period(K, name, nv):
+    """x.diff(k) etc. on a series of unbounded length, any negative integer shift: value at t is f(x(t), x(t+k)),
+    NaN where either is missing; the result has no all-missing leading/trailing period."""
+    cls = D.QuarterlyPeriod
+    x, xs, xd = mk_series(K, "x", cls, nv)
+    old = K.snapshot(xd)
+    k = K.int("shift", -12, -1)
+    K.method(x, name, k)
+    ns, nd = state(K, x)
+    t, c = generic_cell(K, cls, nv)
+    K.instantiate(t)
+    a, b = V(K, xs, old, t, c), V(K, xs, old, t + k, c)
+    if name in ("roc", "pct"):
+        K.assume(K.Or(K.cell_is_nan(b), K.cell_val(b) != 0))
+    if name == "diff_log":
+        K.assume(K.And(K.Or(K.cell_is_nan(a), K.cell_val(a) > 0), K.Or(K.cell_is_nan(b), K.cell_val(b) > 0)))
+    nan = K.Or(K.cell_is_nan(a), K.cell_is_nan(b))
+    want = K.cell_ite(nan, lambda: K.nan_cell(), lambda: K.real_cell(CHANGE_CELL[name](K, K.cell_val(a), K.cell_val(b))))
+    K.ensure(f"{name}(x, k)(t) == f(x(t), x(t+k)) period by period", K.cell_eq(V(K, ns, nd, t, c), want))
+    K.ensure("RI of the result", RI(K, x, nv, cls))
+
+
+# ------------------------------------------------------------------------------ series level: the cumulation loops (loop contracts)
+CUM = {"diff": (lambda K, a, b: a - b), "roc": (lambda K, a, b: a / b), "pct": (lambda K, a, b: 100 * (a / b - 1))}
+
+
+def _full_series(K, name, cls, lo_serial, hi_serial, positive=False, nonzero=False):
+    """A series observed on every period of [lo, hi] (no interior missing values): returns (obj, start, data, cell(t))."""
+    rows = hi_serial - lo_serial + 1
+    data = K.array(name + "_data", (rows, 1), nan=False)
+    s = K.obj(Series, start=K.obj(cls, serial=lo_serial), data=data, data_type=np.float64, metadata={}, __description__="")
+    return s, data
+
+
+def _x_cell(K, xd, lo, t):
+    return K.cell(xd, t - lo, 0)
+
+
+@contract("C13", targets=[P + "Inlay._cumulate_forward", P + "Inlay.temporal_cumulation", P + "_CUMULATIVE_FACTORY",
+                          "irispie.series.main:Series.set_data", "irispie.series.main:Series.get_data", "irispie.series.main:Series.empty"],
+          instances=[(n,) for n in CUM], cross=0, opts={"max_paths": 20000})
+def forward_cumulation_reproduces_the_series(K, name):
+    """Loop contract for _cumulate_forward with the original series x as initial condition and change = f(x, shift):
+    invariant (independent of the iteration): self == x on [from+shift, until] and NaN elsewhere.  init: the code before
+    the loop establishes it; step: one iteration at ANY period t of the span keeps it; exit: it is the result, which
+    contains the span - so cum_f(change(x), initial=x) == x on the span, for every negative shift."""
+    cls = D.QuarterlyPeriod
+    k = K.int("shift", -6, -1)
+    a = K.int("from", 8010, 8040)
+    b = K.int("until", 8010, 8060)
+    K.assume(a <= b)
+    lo = a + k
+    x, xd = _full_series(K, "x", cls, lo, b)
+    f = CUM[name]
+    i = K.int("i", 0, 60)
+    K.assume(i <= b - a)
+    if name in ("roc", "pct"):
+        # x has no zero on [from+shift, until] (domain of the rate transforms): the instance the step needs
+        K.assume(K.cell_val(_x_cell(K, xd, lo, a + i + k)) != 0)
+    # the change series: f(x(t), x(t+k)) on [from, until] (what the real change function leaves, by change_is_period_by_period)
+    crows = b - a + 1
+    from pyvc.ndarray import NDArr
+    cdata = K.derived_array((crows, 1), lambda i, c: K.real_cell(f(K, K.cell_val(_x_cell(K, xd, lo, a + i)), K.cell_val(_x_cell(K, xd, lo, a + i + k)))))
+    cdata0 = K.snapshot(cdata)
+    change = K.obj(Series, start=K.obj(cls, serial=a), data=cdata, data_type=np.float64, metadata={}, __description__="")
+    span = K.call(D.Span, K.obj(cls, serial=a), K.obj(cls, serial=b))
+    fac = T._CUMULATIVE_FACTORY[name]
+    t = K.int("t", 7990, 8070)
+    K.instantiate(t)
+    inv_cell = lambda: K.cell_ite(K.And(lo <= t, t <= b), lambda: _x_cell(K, xd, lo, K.ite(K.And(lo <= t, t <= b), t, lo)), lambda: K.nan_cell())   # noqa: E731
+
+    # ---- init: run the real code before the loop on self = change series
+    h0 = K.run_prefix(T.Inlay._cumulate_forward, change, k, fac["forward"], x, span)
+    K.instantiate(t)
+    s0 = K.local(h0, "self")
+    ss, sd = state(K, s0)
+    K.ensure("init: the invariant holds before the first iteration", K.cell_eq(V(K, ss, sd, t, 0), inv_cell()))
+    ch = K.local(h0, "change")
+    cs, cd = state(K, ch)
+    K.ensure("init: `change` holds the change series", K.And(cs == a, K.Implies(K.And(a <= t, t <= b), K.cell_eq(V(K, cs, cd, t, 0), K.cell(cdata0, K.ite(K.And(a <= t, t <= b), t - a, 0), 0)))))
+    z = K.local(h0, "zipped_span")
+    ti, shi = K.seq_at(z, i)
+    K.ensure("init: iteration i visits (from+i, from+i+shift)", K.And(K.seq_len(z) == b - a + 1, K.attr(ti, "serial") == a + i, K.attr(shi, "serial") == a + i + k))
+
+    # ---- step: from ANY state satisfying the invariant, one iteration at period from+i
+    self_data = K.derived_array((b - lo + 1, 1), lambda r, c: _x_cell(K, xd, lo, lo + r))
+    me = K.obj(Series, start=K.obj(cls, serial=lo), data=self_data, data_type=np.float64, metadata={}, __description__="")
+    # (the init part above ran the real prefix on `change` as self and mutated it: the step uses a fresh change series)
+    change2 = K.obj(Series, start=K.obj(cls, serial=a), data=K.derived_array((crows, 1), lambda i_, c_: K.cell(cdata0, i_, 0)), data_type=np.float64, metadata={}, __description__="")
+    h = K.loop_frame(T.Inlay._cumulate_forward, {"self": me, "change": change2, "cum_func": fac["forward"], "shift": k})
+    K.loop_body(h, (K.obj(cls, serial=a + i), K.obj(cls, serial=a + i + k)))
+    K.instantiate(t)
+    K.instantiate(a + i)
+    ms, md = state(K, me)
+    K.ensure("step: the invariant is preserved by an iteration at any period of the span", K.cell_eq(V(K, ms, md, t, 0), inv_cell()))
+    K.ensure("step: the reconstructed value at the visited period is x(t_i)", K.cell_eq(V(K, ms, md, a + i, 0), _x_cell(K, xd, lo, a + i)))
+
+
+@contract("C13", targets=[P + "Inlay._cumulate_backward", "irispie.dates:Span.resolve", "irispie.dates:Span.shift"], instances=[("diff",)], cross=0, opts={"max_paths": 20000})
+def backward_cumulation_initial_condition_covers_the_chain(K, name):
+    """_cumulate_backward, code before the loop: with x as initial condition the series is initialised to x on the whole
+    range [min(target span), max(target span) - shift], i.e. every anchor period the backward chain reads (t = sh - shift
+    for every reconstructed sh) carries its value - for EVERY negative shift, not only -1."""
+    cls = D.QuarterlyPeriod
+    k = K.int("shift", -6, -1)
+    lo_t = K.int("target_from", 8010, 8040)        # reconstructed periods sh in [lo_t, hi_t], visited downwards
+    hi_t = K.int("target_until", 8010, 8050)
+    K.assume(lo_t <= hi_t)
+    top = hi_t - k
+    x, xd = _full_series(K, "x", cls, lo_t, top)
+    cdata = K.derived_array((top - lo_t + 1, 1), lambda i, c: K.real_cell(K.cell_val(_x_cell(K, xd, lo_t, lo_t + i)) - 1))
+    change = K.obj(Series, start=K.obj(cls, serial=lo_t), data=cdata, data_type=np.float64, metadata={}, __description__="")
+    span = K.call(D.Span, K.obj(cls, serial=hi_t), K.obj(cls, serial=lo_t), -1)
+    fac = T._CUMULATIVE_FACTORY[name]
+    h0 = K.run_prefix(T.Inlay._cumulate_backward, change, k, fac["backward"], x, span)
+    s0 = K.local(h0, "self")
+    ss, sd = state(K, s0)
+    t = K.int("t", 7990, 8070)
+    K.instantiate(t)
+    K.ensure("init: self == x on [min(target), max(target) - shift], NaN elsewhere",
+             K.cell_eq(V(K, ss, sd, t, 0), K.cell_ite(K.And(lo_t <= t, t <= top), lambda: _x_cell(K, xd, lo_t, K.ite(K.And(lo_t <= t, t <= top), t, lo_t)), lambda: K.nan_cell())))
+    br, sbr = K.local(h0, "backward_range"), K.local(h0, "shifted_backward_range")
+    K.ensure("iteration pairs are (sh - shift, sh) for sh from max(target) down to min(target)",
+             K.And(K.attr(K.getattr(sbr, "start"), "serial") == hi_t, K.attr(K.getattr(sbr, "end"), "serial") == lo_t, K.getattr(sbr, "step") == -1,
+                   K.attr(K.getattr(br, "start"), "serial") == hi_t - k, K.attr(K.getattr(br, "end"), "serial") == lo_t - k, K.getattr(br, "step") == -1))
+
+
+@contract("C13", targets=[P + "Inlay._cumulate_backward"], instances=[(n,) for n in CUM], cross=0, opts={"max_paths": 20000})
+def backward_cumulation_step(K, name):
+    """Step of the backward loop from the invariant `self == x on [lo, top]` (x fully observed): an iteration at the pair
+    (t, sh = t + shift) with orig.get_data(t) == f(x(t), x(sh)) keeps the invariant, i.e. writes x(sh) at sh."""
+    cls = D.QuarterlyPeriod
+    k = K.int("shift", -6, -1)
+    lo = K.int("lo", 8010, 8040)
+    top = K.int("top", 8010, 8060)
+    K.assume(lo - k <= top)
+    x, xd = _full_series(K, "x", cls, lo, top)
+    f = CUM[name]
+    t_i = K.int("t_i", 8000, 8070)
+    K.assume(K.And(lo - k <= t_i, t_i <= top))
+    sh_i = t_i + k
+    if name in ("roc", "pct"):
+        K.assume(K.And(K.cell_val(_x_cell(K, xd, lo, sh_i)) != 0, K.cell_val(_x_cell(K, xd, lo, t_i)) != 0))
+    # orig: the change series on [lo - shift, top]
+    orows = top - (lo - k) + 1
+    odata = K.derived_array((orows, 1), lambda i, c: K.real_cell(f(K, K.cell_val(_x_cell(K, xd, lo, lo - k + i)), K.cell_val(_x_cell(K, xd, lo, lo + i)))))
+    orig = K.obj(Series, start=K.obj(cls, serial=lo - k), data=odata, data_type=np.float64, metadata={}, __description__="")
+    me = K.obj(Series, start=K.obj(cls, serial=lo), data=K.derived_array((top - lo + 1, 1), lambda r, c: _x_cell(K, xd, lo, lo + r)), data_type=np.float64, metadata={}, __description__="")
+    fac = T._CUMULATIVE_FACTORY[name]
+    h = K.loop_frame(T.Inlay._cumulate_backward, {"self": me, "orig": orig, "cum_func": fac["backward"], "shift": k})
+    K.loop_body(h, (K.obj(cls, serial=t_i), K.obj(cls, serial=sh_i)))
+    t = K.int("t", 7990, 8070)
+    K.instantiate(t)
+    K.instantiate(sh_i)
+    ms, md = state(K, me)
+    K.ensure("step: invariant preserved", K.cell_eq(V(K, ms, md, t, 0), K.cell_ite(K.And(lo <= t, t <= top), lambda: _x_cell(K, xd, lo, K.ite(K.And(lo <= t, t <= top), t, lo)), lambda: K.nan_cell())))
+    K.ensure("step: x(sh) reconstructed at sh", K.cell_eq(V(K, ms, md, sh_i, 0), _x_cell(K, xd, lo, sh_i)))
+
+
+from pyvc.bounded import bounded
+
+
+@bounded("C13", bound="series of 6-14 periods (yearly, quarterly, monthly, daily), 1-2 variants, positive data; shifts -1..-4; forward spans and backward spans inside the data; cum_diff, cum_diff_log, cum_pct, cum_roc; keyword shifts yoy/soy/eopy/tty of diff against an independent per-period reference")
+def cumulation_and_keyword_shifts_native(B):
+    """Native replay of the series-level sentences: cumulating the change with the original as initial condition
+    reproduces the original on the span (forward and backward, every negative shift); keyword-shift changes equal
+    x(t) - x(reference period of t)."""
+    import irispie as ir
+    rng = B.rng
+    for cls, start in ((D.YearlyPeriod, D.yy(2001)), (D.QuarterlyPeriod, D.qq(2001, 2)), (D.MonthlyPeriod, D.mm(2001, 11)), (D.DailyPeriod, D.dd(2019, 12, 20))):
+        for n in (6, 14):
+            for nv in (1, 2):
+                vals = np.array([[rng.uniform(0.5, 3.0) for _ in range(nv)] for _ in range(n)])
+                x = Series(start=start, values=vals.copy())
+                for shift in (-1, -2, -3, -4):
+                    for cname, chg in (("cum_diff", ir.diff), ("cum_diff_log", ir.diff_log), ("cum_pct", ir.pct), ("cum_roc", ir.roc)):
+                        for direction in ("forward", "backward"):
+                            B.case()
+                            c = chg(x, shift)
+                            if direction == "forward":
+                                span = (start - shift) >> (start + n - 1)
+                                check = [start - shift + i for i in range(n + shift)]
+                            else:
+                                span = ir.Span(start + n - 1 + shift, start, -1)
+                                check = [start + i for i in range(n + shift)]
+                            if len(check) < 1:
+                                continue
+                            try:
+                                r = getattr(ir, cname)(c, shift, initial=x, span=span)
+                            except Exception as ex:
+                                B.fail(f"{cname} {direction}: exception {type(ex).__name__}: {ex}", {"class": cls.__name__, "shift": shift, "n": n})
+                                return
+                            for t in check:
+                                got, want = r.get_data((t,)), x.get_data((t,))
+                                if not np.allclose(got, want, equal_nan=False, rtol=1e-9):
+                                    B.fail(f"{cname} {direction} with the original as initial condition does not reproduce the original", {"class": cls.__name__, "shift": shift, "n": n, "variants": nv, "period": str(t), "got": got.tolist(), "want": want.tolist()})
+                                    return
+                for kw in ("yoy", "soy", "eopy", "tty"):
+                    if cls is D.DailyPeriod and kw == "yoy":
+                        continue
+                    B.case()
+                    try:
+                        d = ir.diff(x, kw)
+                    except Exception as ex:
+                        B.fail(f"diff(x, {kw!r}): exception {type(ex).__name__}: {ex}", {"class": cls.__name__})
+                        return
+                    for i in range(n):
+                        t = start + i
+                        ref = {"yoy": t - int(cls.frequency), "soy": t.create_soy(), "eopy": t.create_eopy(), "tty": t.create_tty()}[kw]
+                        xt = x.get_data((t,))[0]
+                        if ref is None:
+                            want = xt            # tty: start-of-year periods keep their value (neutral 0 subtracted)
+                        else:
+                            want = xt - x.get_data((ref,))[0]
+                        got = d.get_data((t,))[0]
+                        if not np.allclose(got, want, equal_nan=True, rtol=1e-9):
+                            B.fail(f"diff with shift {kw!r} is not x(t) - x(reference period)", {"class": cls.__name__, "period": str(t), "got": got.tolist(), "want": want.tolist()})
+                            return
